@@ -1,32 +1,4 @@
-use nalgebra::{Matrix6, Vector6};
-use opwv::gen::IsoSpec;
-use opwv::glue::*;
-use opwv::model::*;
-use rs_opw_kinematics::jacobian::Jacobian;
-use rs_opw_kinematics::tool::Base;
-use std::sync::Arc;
+//! Scratch binary used during development for one-off numerical experiments against the library (not part of any check).
 fn main() {
-    let r = RobotSpec { a1: 165.13510225488304, a2: -85.66038145806196, b: 250.52910811965705, c1: -880.0704880323516, c2: -460.8537791183473, c3: 455.21482194357213, c4: 0.18514284279706952, offsets: [0.0, 1.9705087921051039, -0.48637985824911334, -2.5782195924239644, 0.0, -0.5018228302095832], signs: [-1, -1, 1, -1, 1, 1], dof: 6 };
-    let b = IsoSpec { t: [-1555.8483396763593, -1684.0918219039422, -693.5260552733864], axis: [0.7149601323859289, 0.9369515480897935, 0.12926632467375665], angle: 0.0 };
-    let j = [-1.6675486615305324, 2.6487071759686978, 2.9029864467032582, -1.336028737196528, 0.9360068688951863, -2.090177236938669];
-    let k = Base { robot: Arc::new(opw(&r)), base: to_na(&b.iso()) };
-    let jac = Jacobian::new(&k, &j, 1e-5);
-    let mut m = Matrix6::zeros();
-    for row in 0..6 {
-        let mut e = Vector6::zeros();
-        e[row] = 1.0;
-        let t = jac.torques_from_vector(&e);
-        for col in 0..6 { m[(row, col)] = t[col]; }
-    }
-    let x = Vector6::from_column_slice(&[525.6581860769161, -1314.5418536165141, -1477.324153014561, -1.817620978104186, 1.2856496702289821, 1.8684733232918502]);
-    let qd = jac.velocities_from_vector(&x).unwrap();
-    let qv = Vector6::from_column_slice(&qd);
-    let res = m * qv - x;
-    println!("qd = {:?}", qd);
-    println!("residual with the library's own matrix: {:?}", res);
-    let svd = nalgebra::SVD::new(m, false, false);
-    println!("singular values {:?}", svd.singular_values);
-    let inv = m.try_inverse().unwrap();
-    let q2 = inv * x;
-    println!("explicit inverse: residual {:?}", m * q2 - x);
+    println!("opwv probe: scratch binary, nothing to do");
 }
